@@ -202,11 +202,16 @@ pub fn search(seed: u64, n: u64) {
     let mut cx = Ctx { stats: Stats::new(), hangs: BTreeMap::new() };
     install_silent_hook();
     // corpus: the recorded non-terminating query, its mirror image, and a symmetric arch queried at its circle centre
-    let corpus: [(Cub, Coord2, &str, &str); 4] = [
+    let corpus: [(Cub, Coord2, &str, &str); 8] = [
         ([Coord2(5.0, 5.0), Coord2(5.0, 5.0), Coord2(5.0, 5.0), Coord2(9.0, 7.0)], Coord2(7.0, 6.0), "three_coincident_control_points", "corpus"),
         ([Coord2(9.0, 7.0), Coord2(5.0, 5.0), Coord2(5.0, 5.0), Coord2(5.0, 5.0)], Coord2(7.0, 6.0), "three_coincident_control_points", "corpus"),
         ([Coord2(10.0, 50.0), Coord2(10.0, 50.0 + 40.0 * 0.5522847498), Coord2(50.0 - 40.0 * 0.5522847498, 90.0), Coord2(50.0, 90.0)], Coord2(50.0, 50.0), "arch", "arch_circle_centre"),
         ([Coord2(0.0, 0.0), Coord2(30.0, 60.0), Coord2(70.0, 60.0), Coord2(100.0, 0.0)], Coord2(50.0, 0.0), "arch", "equidistant_two_branches"),
+        // regression inputs of repair 914de05: Newton-Raphson left a monotone but curved section of the quintic and the section's root was lost
+        ([Coord2(19.6291685319534, 60.76084587798945), Coord2(31.816159703900915, 12.157823030310745), Coord2(4.566973462143931, 89.61966079676242), Coord2(19.6291685319534, 60.76084587798945)], Coord2(21.506016375184124, 44.107513926611674), "closed", "corpus_newton_left_the_section"),
+        ([Coord2(1.717287405309853, 70.5193474452394), Coord2(1.717287405309853, 70.5193474452394), Coord2(76.87558252335309, 64.87172089990607), Coord2(77.73542920353177, 69.08393008271642)], Coord2(76.87558252335309, 64.87172089990607), "cp1_at_start", "corpus_newton_left_the_section"),
+        ([Coord2(61.32145240349954, 85.3356554364626), Coord2(61.32145240349954, 85.3356554364626), Coord2(29.459846607617003, 35.94791829449602), Coord2(39.32150592740405, 74.8102128374789)], Coord2(40.959620742905344, 60.43018650693524), "cp1_at_start", "corpus_newton_left_the_section"),
+        ([Coord2(65.2551103844957, 99.04165508675575), Coord2(64.00556814471904, 99.37720942062833), Coord2(40.17319614708621, 22.13640624386266), Coord2(37.51933460558313, 63.00981140896682)], Coord2(64.00556814471904, 99.37720942062833), "random", "corpus_newton_left_the_section"),
     ];
     for (w, q, cc, qc) in corpus.iter() { check_query(&mut cx, w, *q, cc, qc); }
     for it in 0..n {
@@ -328,6 +333,18 @@ fn corr_nearest(stats: &mut Stats, rng: &mut Rng) {
     let mut q = gen_query(rng, &w, qclass);
     if dy { q = Coord2((q.0 * 4.0).round() / 4.0, (q.1 * 4.0).round() / 4.0); }
     if !finite2(q) { q = Coord2(50.0, 50.0); }
+    corr_nearest_case(stats, w, q, cclass, qclass, dy);
+}
+
+/// the queries on which `find_x_intercept` takes its bisection branch (regression inputs of repair 914de05)
+const BISECTION_CASES: [(Cub, Coord2); 4] = [
+    ([Coord2(19.6291685319534, 60.76084587798945), Coord2(31.816159703900915, 12.157823030310745), Coord2(4.566973462143931, 89.61966079676242), Coord2(19.6291685319534, 60.76084587798945)], Coord2(21.506016375184124, 44.107513926611674)),
+    ([Coord2(1.717287405309853, 70.5193474452394), Coord2(1.717287405309853, 70.5193474452394), Coord2(76.87558252335309, 64.87172089990607), Coord2(77.73542920353177, 69.08393008271642)], Coord2(76.87558252335309, 64.87172089990607)),
+    ([Coord2(61.32145240349954, 85.3356554364626), Coord2(61.32145240349954, 85.3356554364626), Coord2(29.459846607617003, 35.94791829449602), Coord2(39.32150592740405, 74.8102128374789)], Coord2(40.959620742905344, 60.43018650693524)),
+    ([Coord2(65.2551103844957, 99.04165508675575), Coord2(64.00556814471904, 99.37720942062833), Coord2(40.17319614708621, 22.13640624386266), Coord2(37.51933460558313, 63.00981140896682)], Coord2(64.00556814471904, 99.37720942062833)),
+];
+
+fn corr_nearest_case(stats: &mut Stats, w: Cub, q: Coord2, cclass: &str, qclass: &str, dy: bool) {
     let c = lib_curve(&w);
     let t = nearest_point_on_curve_bezier_root_finder(&c, &q);
     let t2 = c.nearest_t(&q);
@@ -378,6 +395,7 @@ fn corr_path(stats: &mut Stats, rng: &mut Rng) {
 pub fn corr(seed: u64, n: u64) {
     let mut rng = Rng(seed ^ 0xC09C);
     let mut stats = Stats::new();
+    for (w, q) in BISECTION_CASES.iter() { corr_nearest_case(&mut stats, *w, *q, "corpus", "corpus_newton_left_the_section", false); }
     for it in 0..n {
         match it % 5 { 0 | 1 => corr_nearest(&mut stats, &mut rng), 2 | 3 => corr_roots(&mut stats, &mut rng), _ => corr_path(&mut stats, &mut rng) }
     }
